@@ -26,6 +26,8 @@ func init() {
 				Doc: "Route tokens come from the full path: pathParts/hasCustomVerb are computed from Route.Path, which Build assigns from root path + route path."},
 			{ID: "C04.e", Template: "T-SIBLING", Required: true, Run: ruleC04e,
 				Doc: "The JSR311 binder reads the same match the JSR311 router made: service expression on the URL path, route expression on the final group of that match."},
+			{ID: "C04.f", Template: "T-ARGS", Required: false, SourceOnly: true, Run: ruleArgumentOrder,
+				Doc: "Crossed same-typed arguments (same obligations as C01.g): the binder and its helpers take template text and URL text side by side."},
 		},
 	})
 }
